@@ -19,4 +19,5 @@ def run(ck):
     gradient.r13_homogeneous_degrees(ck, P)
     gradient.r15_reflected_angle_stays_half_open(ck, P)
     gradient.r16_packed_channels_are_clamped(ck, P)
+    gradient.r17_walker_position_kept_wide(ck, P)
     sampling.r16_skip_only_on_zero_mask_word(ck, P, 'C13-R14')
